@@ -84,6 +84,7 @@ func buildLayout(c pixCase, pix []byte, garbage byte) (image.Image, []byte) {
 
 func checkC19(args []string) {
 	run := vx.NewRun("C19", "exploration", args)
+	activeRun = run
 	run.Rule = "layout space enumerated by TLC from spec/Pixels.tla (image type x size x view origin x parent margins x stride padding x generic wrapper; the view arithmetic is checked to stay inside the buffer without sharing bytes) crossed with encoder configurations (lossy/lossless x alpha class x Exact x sharp YUV x dithering); for one picture per (type, size, alpha class) every layout must give byte-identical output, also with a second garbage pattern outside the bounds, and the caller's buffer must be unchanged. distinct = distinct (layout, configuration) pairs"
 	run.Assumptions = []string{"RGBA layouts (premultiplied storage) are compared among themselves, including the generic wrapper yielding the same color.RGBA values"}
 	res := vx.MustTLC(vx.TLCOpts{Module: "Pixels", Cfg: "GEN_Pixels.cfg", Workers: 1, Timeout: 20 * time.Minute})
